@@ -15,6 +15,7 @@
 #include <kernel/global/gate.hpp>
 #include <kernel/global/muxer.hpp>
 #include <kernel/global/vector.hpp>
+#include <kernel/global/matrix.hpp>
 #include <kernel/global/filter.hpp>
 #include <kernel/global/splitter.hpp>
 #include <kernel/lafem/unit_filter.hpp>
@@ -611,6 +612,154 @@ static void op_async(Cur& c, std::ostream& o)
   o << " " << ssum.str() << " " << sqrt_ticket(ssq, G.comm).str() << " " << smin.str() << " " << smax.str() << " " << sqrt_ticket(sq2, G.comm).str();
 }
 
+// asynchronous tickets on a gate WITHOUT neighbours (one process, or a rank whose patch touches no other patch):
+// Global::Vector::sync_0_async / sync_1_async and Global::Matrix::apply_async, followed by wait() on the returned ticket
+static void op_ticket(Cur& c, std::ostream& o)
+{
+  typedef LAFEM::DenseVector<Q, Index> VT;
+  typedef Global::Vector<VT, MirrorT> GV;
+  Index kind = c.idx();
+  auto v = read_rats(c);
+  const Index n = Index(v.size());
+  Dist::Comm comm(Dist::Comm::world());
+  Global::Gate<VT, MirrorT> gate(comm);
+  gate.compile(VT(n));
+  GV x(&gate, make_vec<VT>(n, v));
+  if(kind == 0u) { auto t = x.sync_0_async(); t.wait(); o << "V"; show_vec(o, x.local()); }
+  else if(kind == 1u) { auto t = x.sync_1_async(); t.wait(); o << "V"; show_vec(o, x.local()); }
+  else
+  {
+    std::vector<Index> ptr, col; std::vector<Q> val;
+    LAFEM::DenseVector<Index, Index> vptr(n + 1u), vcol(n);
+    LAFEM::DenseVector<Q, Index> vval(n);
+    for(Index i = 0; i < n; ++i) { vptr.elements()[i] = i; vcol.elements()[i] = i; vval.elements()[i] = Q(2); }
+    vptr.elements()[n] = n;
+    Global::Matrix<CsrT, MirrorT, MirrorT> A(&gate, &gate, n, n, vcol, vval, vptr);
+    GV r(&gate, VT(n, Q(0)));
+    auto t = A.apply_async(r, x);
+    t.wait();
+    o << "V"; show_vec(o, r.local());
+  }
+}
+
+// ------------------------------------------------------------------------------------------------------------------
+// discretise-and-solve: (Jacobi-)Richardson and CG iterations written with the real Global::Vector members, the real
+// local CSR kernels and Gate::from_1_to_0 / frequencies; every sync_0 and allreduce is the emulated exchange.
+// ------------------------------------------------------------------------------------------------------------------
+struct SolveCtx
+{
+  typedef LAFEM::DenseVector<Q, Index> VT;
+  typedef Global::Vector<VT, MirrorT> GV;
+  std::vector<PatchIn> ps;
+  std::vector<std::vector<Index>> ords;
+  std::vector<CsrT> mats;
+  std::unique_ptr<Gates<VT>> G;
+  std::vector<GV> bs, xs;
+
+  explicit SolveCtx(Cur& c)
+  {
+    ps = read_decomp(c);
+    for(std::size_t r = 0; r < ps.size(); ++r) ords.push_back(read_idx(c));
+    for(std::size_t r = 0; r < ps.size(); ++r) mats.push_back(read_csr(c, ps[r].n));
+    G.reset(new Gates<VT>(ps));
+    for(std::size_t r = 0; r < ps.size(); ++r) bs.emplace_back(G->gates[r].get(), make_vec<VT>(ps[r].n, read_rats(c)));
+    for(std::size_t r = 0; r < ps.size(); ++r) xs.emplace_back(G->gates[r].get(), make_vec<VT>(ps[r].n, read_rats(c)));
+  }
+  std::vector<GV> fresh() const
+  {
+    std::vector<GV> v;
+    for(std::size_t r = 0; r < ps.size(); ++r) v.emplace_back(G->gates[r].get(), VT(ps[r].n, Q(0)));
+    return v;
+  }
+  // sync_0 of all patches
+  bool sync0(std::vector<GV>& v) const
+  {
+    std::vector<VT> loc;
+    for(auto& g : v) loc.push_back(g.local().clone());
+    if(!emulated_sync0(*G, loc, ords)) return false;
+    for(std::size_t r = 0; r < v.size(); ++r) v[r].local().copy(loc[r]);
+    return true;
+  }
+  // Global::Matrix::apply(r, x, y, alpha)
+  bool apply_axpy(std::vector<GV>& rv, const std::vector<GV>& x, const std::vector<GV>& y, Q alpha) const
+  {
+    for(std::size_t r = 0; r < ps.size(); ++r)
+    {
+      rv[r].copy(y[r]);
+      rv[r].from_1_to_0();
+      mats[r].apply(rv[r].local(), x[r].local(), rv[r].local(), alpha);
+    }
+    return sync0(rv);
+  }
+  // Global::Matrix::apply(r, x)
+  bool apply(std::vector<GV>& rv, const std::vector<GV>& x) const
+  {
+    for(std::size_t r = 0; r < ps.size(); ++r) mats[r].apply(rv[r].local(), x[r].local());
+    return sync0(rv);
+  }
+  // Gate::dot + allreduce
+  Q dot(const std::vector<GV>& x, const std::vector<GV>& y) const
+  {
+    Q s(0);
+    for(std::size_t r = 0; r < ps.size(); ++r)
+    {
+      const auto& g = *G->gates[r];
+      s = s + (g.get_ranks().empty() ? x[r].local().dot(y[r].local()) : g.get_freqs().triple_dot(x[r].local(), y[r].local()));
+    }
+    return s;
+  }
+};
+
+static void op_rich(Cur& c, std::ostream& o)
+{
+  const bool jac = c.idx() != 0u;
+  Index k = c.idx();
+  Q omega = Q::parse(c.str());
+  SolveCtx S(c);
+  auto d = S.fresh(), inv = S.fresh();
+  for(Index it = 0; it < k; ++it)
+  {
+    if(!S.apply_axpy(d, S.xs, S.bs, Q(-1))) { o << "DEADLOCK"; return; }      // defect b - A x
+    if(jac)
+    {
+      // JacobiPrecond: extract_diag (synchronised), component_invert, component_product
+      for(std::size_t r = 0; r < S.ps.size(); ++r) S.mats[r].extract_diag(inv[r].local());
+      if(!S.sync0(inv)) { o << "DEADLOCK"; return; }
+      for(std::size_t r = 0; r < S.ps.size(); ++r)
+      {
+        inv[r].component_invert(inv[r]);
+        d[r].component_product(d[r], inv[r]);
+      }
+    }
+    for(std::size_t r = 0; r < S.ps.size(); ++r) S.xs[r].axpy(d[r], omega);
+  }
+  o << "V";
+  for(auto& x : S.xs) show_vec(o, x.local());
+}
+
+static void op_cg(Cur& c, std::ostream& o)
+{
+  Index k = c.idx();
+  SolveCtx S(c);
+  auto r = S.fresh(), p = S.fresh(), q = S.fresh();
+  if(!S.apply_axpy(r, S.xs, S.bs, Q(-1))) { o << "DEADLOCK"; return; }
+  for(std::size_t i = 0; i < r.size(); ++i) p[i].copy(r[i]);
+  Q rr = S.dot(r, r);
+  for(Index it = 0; it < k; ++it)
+  {
+    if(!S.apply(q, p)) { o << "DEADLOCK"; return; }
+    Q a = rr / S.dot(p, q);
+    for(std::size_t i = 0; i < r.size(); ++i) { S.xs[i].axpy(p[i], a); r[i].axpy(q[i], -a); }
+    Q rr2 = S.dot(r, r);
+    Q beta = rr2 / rr;
+    for(std::size_t i = 0; i < r.size(); ++i) { p[i].scale(p[i], beta); p[i].axpy(r[i], Q(1)); }   // p = r + beta p
+    rr = rr2;
+  }
+  o << "V";
+  for(auto& x : S.xs) show_vec(o, x.local());
+  o << " R " << rr.str();
+}
+
 template<typename VT_>
 static bool dispatch(const std::string& op, Cur& c, std::ostream& o, Index bs)
 {
@@ -645,6 +794,9 @@ static void handle(const verif::Tokens& t, std::ostream& o)
   if(op == "gdiag") { op_gdiag(c, o); return; }
   if(op == "gfilter") { op_gfilter(c, o); return; }
   if(op == "gred") { op_gred(c, o); return; }
+  if(op == "ticket") { op_ticket(c, o); return; }
+  if(op == "rich") { op_rich(c, o); return; }
+  if(op == "cg") { op_cg(c, o); return; }
   if(op == "spljoin") { op_splitter(c, o, true); return; }
   if(op == "splsplit") { op_splitter(c, o, false); return; }
   if(op == "freqs" || op == "sync0" || op == "sync1" || op == "dot" || op == "mgather" || op == "mscatter"
